@@ -27,35 +27,35 @@ CONSTANTS
 \* iter: the class defines __iter__; kind: item protocol inherited from a builtin root
 \* ("map": __setitem__ only, "seq": __setitem__ + index, "tuple": unassignable, "obj": neither)
 C(bases, d, it, kind) == [bases |-> bases, dict |-> d, iter |-> it, kind |-> kind]
-ClassTab ==
-     ("object"      :> C(<<>>, FALSE, FALSE, "obj"))
-  @@ ("dict"        :> C(<<"object">>, FALSE, TRUE, "map"))
-  @@ ("list"        :> C(<<"object">>, FALSE, TRUE, "seq"))
-  @@ ("tuple"       :> C(<<"object">>, FALSE, TRUE, "tuple"))
-  @@ ("OrderedDict" :> C(<<"dict">>, TRUE, FALSE, "obj"))
+\* (a record literal: cheap to build; a chain of @@ is re-merged at every use while TLC processes
+\* the constant definitions)
+ClassTab == [
+  object |-> C(<<>>, FALSE, FALSE, "obj"), dict |-> C(<<"object">>, FALSE, TRUE, "map"),
+  list |-> C(<<"object">>, FALSE, TRUE, "seq"), tuple |-> C(<<"object">>, FALSE, TRUE, "tuple"),
+  OrderedDict |-> C(<<"dict">>, TRUE, FALSE, "obj"),
   \* chain of 4
-  @@ ("C1" :> C(<<"object">>, TRUE, FALSE, "obj")) @@ ("C2" :> C(<<"C1">>, TRUE, FALSE, "obj"))
-  @@ ("C3" :> C(<<"C2">>, TRUE, FALSE, "obj"))     @@ ("C4" :> C(<<"C3">>, TRUE, FALSE, "obj"))
+  C1 |-> C(<<"object">>, TRUE, FALSE, "obj"), C2 |-> C(<<"C1">>, TRUE, FALSE, "obj"),
+  C3 |-> C(<<"C2">>, TRUE, FALSE, "obj"), C4 |-> C(<<"C3">>, TRUE, FALSE, "obj"),
   \* diamond
-  @@ ("DA" :> C(<<"object">>, TRUE, FALSE, "obj")) @@ ("DB" :> C(<<"DA">>, TRUE, FALSE, "obj"))
-  @@ ("DC" :> C(<<"DA">>, TRUE, FALSE, "obj"))     @@ ("DD" :> C(<<"DB", "DC">>, TRUE, FALSE, "obj"))
-  @@ ("DE" :> C(<<"DD">>, TRUE, FALSE, "obj"))
+  DA |-> C(<<"object">>, TRUE, FALSE, "obj"), DB |-> C(<<"DA">>, TRUE, FALSE, "obj"),
+  DC |-> C(<<"DA">>, TRUE, FALSE, "obj"), DD |-> C(<<"DB", "DC">>, TRUE, FALSE, "obj"),
+  DE |-> C(<<"DD">>, TRUE, FALSE, "obj"),
   \* mixin: E(B, X), F(E)
-  @@ ("A" :> C(<<"object">>, TRUE, FALSE, "obj"))  @@ ("B" :> C(<<"A">>, TRUE, FALSE, "obj"))
-  @@ ("X" :> C(<<"object">>, TRUE, FALSE, "obj"))  @@ ("E" :> C(<<"B", "X">>, TRUE, FALSE, "obj"))
-  @@ ("F" :> C(<<"E">>, TRUE, FALSE, "obj"))
+  A |-> C(<<"object">>, TRUE, FALSE, "obj"), B |-> C(<<"A">>, TRUE, FALSE, "obj"),
+  X |-> C(<<"object">>, TRUE, FALSE, "obj"), E |-> C(<<"B", "X">>, TRUE, FALSE, "obj"),
+  F |-> C(<<"E">>, TRUE, FALSE, "obj"),
   \* builtin subclasses
-  @@ ("MD" :> C(<<"dict">>, TRUE, FALSE, "obj"))   @@ ("MD2" :> C(<<"MD">>, TRUE, FALSE, "obj"))
-  @@ ("MD3" :> C(<<"MD2">>, TRUE, FALSE, "obj"))   @@ ("ML" :> C(<<"list">>, TRUE, FALSE, "obj"))
-  @@ ("ML2" :> C(<<"ML">>, TRUE, FALSE, "obj"))    @@ ("MT" :> C(<<"tuple">>, TRUE, FALSE, "obj"))
-  @@ ("MO" :> C(<<"OrderedDict">>, TRUE, FALSE, "obj"))
+  MD |-> C(<<"dict">>, TRUE, FALSE, "obj"), MD2 |-> C(<<"MD">>, TRUE, FALSE, "obj"),
+  MD3 |-> C(<<"MD2">>, TRUE, FALSE, "obj"), ML |-> C(<<"list">>, TRUE, FALSE, "obj"),
+  ML2 |-> C(<<"ML">>, TRUE, FALSE, "obj"), MT |-> C(<<"tuple">>, TRUE, FALSE, "obj"),
+  MO |-> C(<<"OrderedDict">>, TRUE, FALSE, "obj"),
   \* without / with __dict__: S1, S2 declare __slots__ = (), S3 does not
-  @@ ("S1" :> C(<<"object">>, FALSE, FALSE, "obj")) @@ ("S2" :> C(<<"S1">>, FALSE, FALSE, "obj"))
-  @@ ("S3" :> C(<<"S2">>, TRUE, FALSE, "obj"))      @@ ("S4" :> C(<<"S3">>, TRUE, FALSE, "obj"))
+  S1 |-> C(<<"object">>, FALSE, FALSE, "obj"), S2 |-> C(<<"S1">>, FALSE, FALSE, "obj"),
+  S3 |-> C(<<"S2">>, TRUE, FALSE, "obj"), S4 |-> C(<<"S3">>, TRUE, FALSE, "obj"),
   \* iterable / not: N2 adds __iter__ below the non-iterable N1; I1 is iterable from the top
-  @@ ("N1" :> C(<<"object">>, TRUE, FALSE, "obj"))  @@ ("N2" :> C(<<"N1">>, TRUE, TRUE, "obj"))
-  @@ ("N3" :> C(<<"N2">>, TRUE, FALSE, "obj"))      @@ ("I1" :> C(<<"object">>, TRUE, TRUE, "obj"))
-  @@ ("I2" :> C(<<"I1">>, TRUE, FALSE, "obj"))
+  N1 |-> C(<<"object">>, TRUE, FALSE, "obj"), N2 |-> C(<<"N1">>, TRUE, TRUE, "obj"),
+  N3 |-> C(<<"N2">>, TRUE, FALSE, "obj"), I1 |-> C(<<"object">>, TRUE, TRUE, "obj"),
+  I2 |-> C(<<"I1">>, TRUE, FALSE, "obj") ]
 Concrete == DOMAIN ClassTab
 
 RECURSIVE NomAnc(_)
@@ -67,6 +67,18 @@ KindOf(t) == IF ClassTab[t].kind # "obj" \/ ClassTab[t].bases = <<>> THEN ClassT
              ELSE LET ks == {KindOf(ClassTab[t].bases[i]) : i \in 1..Len(ClassTab[t].bases)} \ {"obj"}
                   IN IF ks = {} THEN "obj" ELSE CHOOSE k \in ks : TRUE
 AllTypes == Concrete \cup Ducks
+\* type.__mro__ by C3 linearisation: the class, then the merge of the linearisations of its bases and
+\* the list of bases (repeatedly take the first head that is in the tail of no list)
+RECURSIVE C3Merge(_), Mro(_)
+C3Merge(lists) ==
+  LET ne == SelectSeq(lists, LAMBDA l : Len(l) > 0) IN
+  IF Len(ne) = 0 THEN <<>>
+  ELSE LET good(h) == \A k \in 1..Len(ne) : \A m \in 2..Len(ne[k]) : ne[k][m] # h
+           i == CHOOSE i \in 1..Len(ne) : good(ne[i][1]) /\ \A j \in 1..(i - 1) : ~good(ne[j][1])
+           h == ne[i][1]
+       IN <<h>> \o C3Merge([k \in 1..Len(ne) |-> IF ne[k][1] = h THEN Tail(ne[k]) ELSE ne[k]])
+Mro(t) == LET bs == ClassTab[t].bases IN
+          <<t>> \o C3Merge([k \in 1..Len(bs) |-> Mro(bs[k])] \o (IF Len(bs) = 0 THEN <<>> ELSE <<bs>>))
 MCUniverse ==
   [sub  |-> [t \in AllTypes |->
                IF t = "_AbstractIterable" THEN {"object"}     \* its __subclasshook__ rejects itself
@@ -75,6 +87,7 @@ MCUniverse ==
    inst |-> [t \in Concrete |->
                NomAnc(t) \cup (IF HasIter(t) THEN {"_AbstractIterable"} ELSE {})
                          \cup (IF HasDict(t) THEN {"_ObjStyleKeys"} ELSE {})],
+   mro  |-> [t \in Concrete |-> Mro(t)],
    auto |-> [op \in AllOps |-> [t \in AllTypes |->
                IF t \in Ducks THEN
                  CASE op = "get" -> "getattr" [] op = "assign" -> "setattr" [] op = "delete" -> "delattr"
@@ -89,10 +102,12 @@ MCUniverse ==
                    [] OTHER -> "False"]]]
 \* printed once for the harness, which builds the real classes from ClassTab and checks the derived
 \* tables against issubclass / isinstance / the real autodiscovery functions
-UniverseDoc ==
+UniverseDoc(dummy) ==   \* (a parameter keeps TLC from evaluating it at start-up)
+ 
   [classes |-> [t \in Concrete |-> ClassTab[t]],
    sub  |-> [t \in AllTypes |-> SeqOf(MCUniverse.sub[t])],
    inst |-> [t \in Concrete |-> SeqOf(MCUniverse.inst[t])],
+   mro  |-> MCUniverse.mro,
    auto |-> MCUniverse.auto]
 
 \* ---- families: which types may be registered, which types are looked up ------------------------
@@ -106,10 +121,12 @@ Families ==
    objroot  |-> [regt |-> <<"object", "C1", "C2">>,     objs |-> <<"object", "C3", "tuple">>]]
 
 \* ---- the order in which register_op iterated over its set of known types in this process -------
-Pos == ("object" :> PosObject) @@ ("dict" :> PosDict) @@ ("list" :> PosList) @@ ("tuple" :> PosTuple)
-       @@ ("OrderedDict" :> PosOD) @@ ("_AbstractIterable" :> PosAI) @@ ("_ObjStyleKeys" :> PosOSK)
+Pos == [object |-> PosObject, dict |-> PosDict, list |-> PosList, tuple |-> PosTuple, OrderedDict |-> PosOD,
+        _AbstractIterable |-> PosAI, _ObjStyleKeys |-> PosOSK]
 KnownOrder == [i \in 1..7 |-> CHOOSE t \in DOMAIN Pos : Pos[t] = i]
-Perms == {p \in [1..7 -> DOMAIN Pos] : \A i, j \in 1..7 : i # j => p[i] # p[j]}
+\* all orders of a set S as sequences (an operator with a parameter: not evaluated unless used)
+RECURSIVE PermsOf(_)
+PermsOf(S) == IF S = {} THEN {<<>>} ELSE UNION {{<<x>> \o p : p \in PermsOf(S \ {x})} : x \in S}
 PristineTab == [k \in {"default", "glommer", "bare"} |-> PristineFor(k, KnownOrder)]
 
 VARIABLES fam, korder
@@ -122,11 +139,11 @@ Pristine(k) == IF AllOrders THEN PristineFor(k, korder) ELSE PristineTab[k]
 
 Init ==
   /\ fam \in FamNames
-  /\ korder \in (IF AllOrders THEN Perms ELSE {KnownOrder})
+  /\ korder \in (IF AllOrders THEN PermsOf(DOMAIN Pos) ELSE {KnownOrder})
   /\ \E rs \in RegSets :
        regs = [r \in rs |-> IF r = "default" \/ ~Dynamic THEN Pristine(RegKind[r]) ELSE Dead(RegKind[r])]
   /\ hist = <<>>
-  /\ (PrintUniverse => PrintT(ToJson(UniverseDoc)))
+  /\ (PrintUniverse => PrintT(ToJson(UniverseDoc(0))))
 
 UserRegistered(r, t) == \E i \in 1..Len(regs[r].made) : regs[r].made[i].t = t
 DoRegister ==
@@ -143,15 +160,12 @@ DoNew ==
 Next == (DoRegister \/ DoLookup \/ DoNew) /\ UNCHANGED <<fam, korder>>
 Spec == Init /\ [][Next]_vars
 
-\* ---- laws (INVARIANT / PROPERTY lines of the cfg files) ---------------------------------------
-\* main configuration: the transcribed mechanism obeys the law except in the three narrowly
-\* described known situations
-Nearest          == NearestLaw(Objs, FALSE)
-HandedOut        == HandedOutLawful(FALSE)
-FreshGlommer     == FreshGlommerLikeDefault(Objs, Pristine("default"), FALSE)
-\* strict configurations: the law itself; TLC must report these violated (re-finding the defects)
-NearestStrict      == NearestLaw(Objs, TRUE)
-FreshGlommerStrict == FreshGlommerLikeDefault(Objs, Pristine("default"), TRUE)
+\* ---- laws (INVARIANT / PROPERTY lines of the cfg file) ----------------------------------------
+\* the transcribed mechanism obeys the law without exception; the spec mutants (constant Mutant)
+\* must make TLC report one of these violated
+Nearest      == NearestLaw(Objs)
+HandedOut    == HandedOutLawful
+FreshGlommer == FreshGlommerLikeDefault(Objs, Pristine("default"))
 Coherent   == CacheCoherent
 TreeOK     == TreeInvariant
 Isolation  == [][IsolationStep]_vars
